@@ -44,9 +44,28 @@ Long == {[calls |-> q, gaps |-> g, hold |-> [a |-> 0, b |-> FALSE], store |-> "a
             q \in {<<"getA1">>, <<"putA1">>, <<"putB", "getB">>, <<"fnA">>}, g \in {<<>>, <<400>>}, m \in {21, 36},
             z \in {{}, {"p4"}, {"p1", "p2"}, {"p1", "p2", "p3", "p4"}}}
 LValid(p) == Len(p.gaps) = Len(p.calls) - 1
+\* a second call on the same target just before / well after the tokens of the cached lookup have gone stale (5 minutes):
+\* republish of an item, put after a get, second immutable put
+LongRepub == {[calls |-> q, gaps |-> g, hold |-> [a |-> 0, b |-> FALSE], store |-> "ack", fault |-> NoFault, long |-> 21, silent |-> {}] :
+                q \in {<<"putA1", "putA1b">>, <<"getA1", "putA1">>, <<"putB", "putB2">>, <<"putA1", "getA1">>, <<"putA1", "putA2">>},
+                g \in {<<280000>>, <<330000>>, <<700000>>}}
+\* puts on both targets whose writes are answered DIFFERENTLY per target (A refused with 203 and B acknowledged, or the other
+\* way round): a reply credited to the wrong put changes a result
+ShortCross == {[calls |-> q, gaps |-> g, hold |-> [a |-> 0, b |-> FALSE], store |-> st, fault |-> NoFault, long |-> 0, silent |-> z] :
+                 q \in {<<"putA1", "putB">>, <<"putB", "putA1">>, <<"putA1", "putB", "getA1">>, <<"putB", "putA1", "putB2">>, <<"putA1", "putA1b", "putB">>},
+                 g \in {<<0>>, <<30>>, <<400>>, <<0, 0>>, <<0, 30>>, <<30, 0>>, <<400, 0>>},
+                 st \in {"errA_ackB", "ackA_errB", "e301A_ackB"}, z \in {{}, {"p2"}}}
+\* every peer also lists a node at port 0 (nothing can be sent there): a candidate that is "visited" and never answers, while
+\* calls on both targets share the transaction-id counter
+ShortGhost == {[calls |-> q, gaps |-> g, hold |-> [a |-> 0, b |-> FALSE], store |-> st, fault |-> NoFault, long |-> 0, silent |-> {}, ghost |-> TRUE] :
+                 q \in Together \cup {<<"getA1">>, <<"putB">>, <<"getA1", "getB">>, <<"putA1", "putA2c">>},
+                 g \in {<<>>, <<0>>, <<30>>, <<400>>, <<0, 0>>, <<0, 30>>, <<30, 0>>}, st \in {"ack", "errA_ackB"}}
 Init == x = 0
 Next == UNCHANGED x
 Spec == Init /\ [][Next]_x
 Emit == PrintT(<<"GEN", ToJson({p \in Short : Valid(p)})>>) /\ PrintT(<<"GEN", ToJson({p \in Long : LValid(p)})>>)
         /\ PrintT(<<"GEN", ToJson({p \in ShortSilent : Valid(p)})>>)
+        /\ PrintT(<<"GEN", ToJson({p \in ShortCross : Valid(p)})>>)
+        /\ PrintT(<<"GEN", ToJson({p \in LongRepub : LValid(p)})>>)
+        /\ PrintT(<<"GEN", ToJson({p \in ShortGhost : Valid(p)})>>)
 =============================================================================
